@@ -13,8 +13,11 @@ _TB = ("Trusted: Lean 4.33 kernel; axioms propext, Classical.choice, Quot.sound 
 
 
 _S = ("Second tie (DESIGN §13): the functions this property is about are translated from /repo/src to Lean on every run "
-      "(tools/rs2lean.py) and proved EQUAL to the model functions (Proofs/SrcEq*.lean, loops and casts included), so the theorems "
-      "are re-checked against what the source says now; a change to a translated function breaks the equality or leaves it intact. ")
+      "(tools/rs2lean.py); each current translation is proved, on every run, equal to the committed baseline translation "
+      "(Generated/Stable/*.lean: per-function kernel-checked stability theorems that see through renamed or reordered lets, "
+      "extracted helpers and simple control-flow restructuring), and the baseline is proved EQUAL to the model functions "
+      "(Proofs/SrcEq*.lean, loops and casts included) — so the theorems are re-checked against what the source says now; a "
+      "change of behaviour in a translated function makes its stability theorem unprovable. ")
 
 
 def _c(text, technique, note=_TB):
